@@ -74,7 +74,13 @@ type sessOp struct {
 	end      time.Time
 	panicked string
 	getErr   bool // an injected storage Get error hit this request
+	delErr   bool // an injected storage Delete error hit this request
+	twice    bool // store route: Get + Save + Release once before the actual Get
+	badSave  bool // the program ends by storing a value gob cannot encode: the save must fail
 }
+
+// a type that is never registered with gob: saving a session holding it fails
+type sessUnregistered struct{ X int }
 
 type sessObs struct {
 	ID    string            `json:"id"`
@@ -131,9 +137,14 @@ func sessionMain(s *simrt.Sim, info *harness.RunInfo) {
 		st.HideSizes = true
 		if faults {
 			st.FailGet = simrt.PickS(s, 80, 200)
-			st.OnFault = func(string) {
+			st.FailDel = simrt.PickS(s, 0, 150)
+			st.OnFault = func(kind string) {
 				if op := opOfTask[simrt.TaskID()]; op != nil {
-					op.getErr = true
+					if kind == "del" {
+						op.delErr = true
+					} else {
+						op.getErr = true
+					}
 				}
 			}
 		}
@@ -204,6 +215,8 @@ func sessionMain(s *simrt.Sim, info *harness.RunInfo) {
 						return err
 					}
 				}
+			case "setbad":
+				sess.Set("bad", sessUnregistered{X: 1})
 			}
 		}
 		return nil
@@ -229,6 +242,15 @@ func sessionMain(s *simrt.Sim, info *harness.RunInfo) {
 	})
 	app.Get("/store", func(c fiber.Ctx) error {
 		op := ops[atoi(c.Get("X-Op"))]
+		if op.twice {
+			// e.g. a middleware of the application that touches the session before the handler does
+			if first, err := store.Get(c); err == nil {
+				if err := first.Save(); err != nil {
+					op.obs.Err = err.Error()
+				}
+				first.Release()
+			}
+		}
 		sess, err := store.Get(c)
 		if err != nil {
 			op.obs.Err = err.Error()
@@ -421,6 +443,20 @@ func sessionMain(s *simrt.Sim, info *harness.RunInfo) {
 					op.prog = append(op.prog, sessStep{kind: "save"}) // several operations inside one request
 				}
 			}
+			if op.route == "store" && s.Chance(250) {
+				op.twice = true
+			}
+			if (op.route == "mw" || op.route == "store") && s.Chance(80) {
+				last := ""
+				if len(op.prog) > 0 {
+					last = op.prog[len(op.prog)-1].kind
+				}
+				if last != "destroy" {
+					op.prog = append(op.prog, sessStep{kind: "setbad"})
+					op.badSave = true
+					op.save = true
+				}
+			}
 			if op.route == "byid" {
 				// GetByID has no request context: keep to data operations
 				var p []sessStep
@@ -467,7 +503,6 @@ func sessionMain(s *simrt.Sim, info *harness.RunInfo) {
 			// panics), but it must not run under the id the client chose
 			s.Count("fault_session_get_error_requests")
 			if op.panicked == "" && resp != nil {
-				_ = json.Unmarshal(resp.Body, &op.obs)
 				if op.obs.ID != "" && op.obs.ID == op.present && status(op.present, op.start) == dead {
 					s.Fail("C15.adopted-client-id", "op%d: the storage lookup failed and the session runs under the presented id %q, which the server does not hold", op.id, op.present)
 				}
@@ -475,12 +510,17 @@ func sessionMain(s *simrt.Sim, info *harness.RunInfo) {
 			stopped = true // the model cannot follow a request that failed half-way
 			return
 		}
+		if op.delErr && (op.panicked != "" || op.obs.Err != "") {
+			// a failed Delete that the operation reported: the state of that session is unknown
+			s.Count("fault_session_delete_error_reported")
+			stopped = true
+			return
+		}
 		if op.panicked != "" {
 			s.Fail("C15.panic", "op%d %s: %s", op.id, op.route, op.panicked)
 			return
 		}
 		op.status = resp.Status
-		_ = json.Unmarshal(resp.Body, &op.obs)
 		// what did the server hand out
 		if source == "header" {
 			op.emitted = resp.Get("Sid")
@@ -574,6 +614,11 @@ func sessionMain(s *simrt.Sim, info *harness.RunInfo) {
 			idleFor := idle
 			destroyed := false
 			expectEmit := "" // "" nothing handed out, "-" expired, otherwise the id
+			if op.twice && op.route == "store" {
+				// the first Get + Save of this request
+				live[curID] = &sessModel{data: copyData(cur.data), absUntil: cur.absUntil, idleUntil: op.end.Add(idle)}
+				expectEmit = curID
+			}
 			saveNow := func() {
 				cp := &sessModel{data: copyData(cur.data), absUntil: cur.absUntil, idleUntil: op.end.Add(idleFor)}
 				live[curID] = cp
@@ -621,8 +666,21 @@ func sessionMain(s *simrt.Sim, info *harness.RunInfo) {
 				s.Fail("C15.new-id", "op%d: the session id after the program is %q, expected %q (ids generated in this request: %v)", op.id, op.obs.EndID, curID, op.genIDs)
 				return
 			}
-			if !destroyed && (op.route == "mw" || op.save) {
+			if !destroyed && (op.route == "mw" || op.save) && !op.badSave {
 				saveNow()
+			}
+			if op.badSave && !destroyed {
+				// the save fails in the encoder (after the cookie was written): nothing is
+				// stored, whatever was saved before stays; the client may hold any id now
+				s.Count("probe_save_failed_in_encoder")
+				if op.emitted != "" && op.emitted != "-" && op.presKind != "other" {
+					if clients[ci].current != "" && clients[ci].current != op.emitted {
+						clients[ci].stale = append(clients[ci].stale, clients[ci].current)
+					}
+					clients[ci].current = op.emitted
+				}
+				h.str(op.route).str("badsave")
+				return
 			}
 			// what the client was told
 			cs := clients[ci]
